@@ -19,6 +19,7 @@ every write.
 import BBProofs.Multiround
 import BBProofs.RefPolicy
 import BBProofs.GenEq6
+import BBProofs.GenEq12
 
 namespace BB.MR
 open BB
@@ -238,5 +239,18 @@ theorem C05_code_reimport (expf : Rat → Rat) (w : W) (ls : List Nat) (n : Nat)
         else BB.PV.pynone :: BB.stateOf (BB.Clu.ofBuffer w ls n ids) BB.PV.pynone := by
   rw [BB.gen_subcluster_init_buffer expf w ls n ids wi nf true hk hn]
   simp
+
+end BB.MR
+
+namespace BB.MR
+open BB
+
+/-- code: the global index ranges handed to the first-round tasks (`_get_files_range_tuples` as translated on this run) are
+the model's: consecutive, the first at 0, each as long as its file — so they partition `0 … N-1` in input-file order -/
+theorem C05_code_file_ranges (expf : Rat → Rat) (files : List (List Row)) (hs : List Nat) (hlen : hs.length = files.length) :
+    BBGen._get_files_range_tuples expf (PV.arr .big hs) (PV.arr .big (files.map List.length))
+      = ((fileTuples files).zip hs).flatMap
+          (fun t => [PV.str t.1.1, PV.int t.2, PV.int t.1.2.2, PV.int ((t.1.2.2 + t.1.2.1.length : Nat) : Int)]) :=
+  gen_file_tuples_model expf files hs hlen
 
 end BB.MR
